@@ -2,7 +2,7 @@
 import re
 
 from .. import hirq, nf, proto, slicer
-from ..rulelib import (while_body, check_seeds, check_roots, tree_of, slicer_of, user_nodes, writes_to_self, self_method_calls,
+from ..rulelib import (resolver_of, while_body, check_seeds, check_roots, tree_of, slicer_of, user_nodes, writes_to_self, self_method_calls,
                        hir_dominates, for_loops, loop_exits, is_max_bound, mutating_self_calls, short)
 
 P2 = "probminhasher::probminhash2::ProbMinHash2::<D, H>::"
@@ -81,13 +81,14 @@ def _guard_pair(ctx, facts, fid, allowed_val):
     writes = writes_to_self(fn, "signature")
     updates = [n for n in self_method_calls(fn, TRACKER, ["update"])]
     paired_updates = set()
+    R = resolver_of(fn)
     for (w, _f, idx) in writes:
         where = hirq.loc(w)
         if w["k"] != "Assign" or len(idx) != 1:
             ctx.violation("GUARD", fid, "signature write of unexpected shape", where, "expected `self.signature[k] = key`, found %s" % hirq.show(w)[:80])
             continue
-        k = nf.nf(idx[0], casts=True)
-        conds = nf.all_conditions(t, w)
+        k = nf.nf(idx[0], casts=True, res=R)
+        conds = nf.all_conditions(t, w, res=R)
         # the guard: (h < self.maxvaluetracker.get_value(k))
         h = None
         for it in conds:
@@ -102,7 +103,7 @@ def _guard_pair(ctx, facts, fid, allowed_val):
         blk = t.parent.get(id(w))
         pair = None
         for u in updates:
-            if t.parent.get(id(u)) is blk and len(u["args"]) == 2 and nf.nf(u["args"][0], True) == k and nf.nf(u["args"][1], True) == h:
+            if t.parent.get(id(u)) is blk and len(u["args"]) == 2 and nf.nf(u["args"][0], True, res=R) == k and nf.nf(u["args"][1], True, res=R) == h:
                 pair = u
         if pair is None:
             ctx.violation("GUARD", fid, "signature[%s] write without paired tracker update" % k, where,
@@ -532,7 +533,8 @@ def run(ctx, facts):
     for fid in PROTO_FNS:
         fn = facts.fn(fid)
         from ..rulelib import seed_wrapper
-        wrappers = {c for c in {x.get("callee") for x in hirq.walk(fn["hir"]) if x["k"] in ("Call", "MethodCall")} if c and seed_wrapper(facts, c)}
+        from .. import mirq
+        wrappers = {c for c in {t_.get("callee") for (_i, t_) in mirq.calls(fn["mir"])} if c and c in facts.fns and seed_wrapper(facts, c)}
         cnt, rej, evs = proto.check(fn, wrappers)
         nev += cnt
         if cnt < 4:
@@ -555,6 +557,9 @@ def run(ctx, facts):
                 continue
             if short(fid) in ok_names:
                 continue
+            from .. import inline
+            if inline.absorbed(facts, fid):
+                continue     # a new private helper whose every call was inlined: its writes are judged in its callers
             for (w, _f, _i) in writes_to_self(fn, "signature"):
                 ctx.violation("WRITERS", fid, "signature written outside the race", hirq.loc(w), "%s writes self.signature: %s" % (fid, hirq.show(w)[:60]))
             for n_ in self_method_calls(fn, "signature"):
